@@ -111,6 +111,7 @@ func (node *PFCPNode) NewPFCPConn(lAddr, rAddr string, buf []byte) *PFCPConn {
 	conn, err := reuse.Dial("udp", lAddr, rAddr)
 	if err != nil {
 		logger.PfcpLog.Errorln("dial socket failed", err)
+		return nil
 	}
 
 	ts := recoveryTS{
